@@ -30,18 +30,13 @@ def run(tier):
     if r.rc != 0:
         chk.notes.append("MODEL-CEX: " + ",".join(r.invariant_violated))
         vlib.log("MODEL-CEX (not a verdict): pool model violates " + ",".join(r.invariant_violated))
-    g = tlc_cfg(cfgtext(cfgset, True, backends="{1, 2}" if thorough else "{1}"), "gen.cfg", workers=8, timeout=1800)
+    g = tlc_cfg(cfgtext(cfgset, True, backends="{1, 2}"), "gen.cfg", workers=8, timeout=1800)
     ws, stats = vlib.walks(g, max_len=200)
     scripts = []
     for j, w in enumerate(ws):
         steps = [dict(a=a["a"], b=a.get("b", 0), c=a.get("c", 0)) for a in w["acts"]]
         scripts.append({"id": "pool-%d-%d" % (w["init"], j), "cf": w["cf"], "steps": steps})
-    sp = os.path.join(sd, "s.ndjson")
-    tp = os.path.join(sd, "t.ndjson")
-    vlib.write_ndjson(sp, scripts)
-    vlib.run([binp, sp, tp], timeout=900)
-    if not os.path.exists(tp + ".ok"):
-        raise vlib.FrameworkError("poolsim did not finish")
+    tp = vlib.run_chunked(binp, scripts, sd, "pool", chunk=300)
     chk.cov["traces_validated_against_impl"] += len(scripts)
     chk.cov["replayed_model_transitions"] = stats["transitions"]
     viols, pr = vlib.observe("ObsWsPoolTrace", "ObsWsPoolTrace.cfg", tp)
